@@ -129,6 +129,22 @@ def check_csv_dialect(chk):
         raise Unrecognised('C19.V', 'no csv reader call found in library.py', lib.rel)
 
 
+def check_csv_typing_sim(chk, rule='C19.V'):
+    """C19.V primary: typed tables (numbers, booleans, datetimes, strings incl. quoted commas / quotes and date-like invalid text, nulls) written as CSV and read back with
+    dataParseCSV, evaluated (E6l) -> True when every cell comes back as the typed value"""
+    from .. import libsim
+    from ..lib import library_functions
+    libfuncs = {f.name: f for f in library_functions(chk.repo, rule)}
+    n, problems = libsim.run_csv_typing(chk.repo, libfuncs, rule)
+    lf = libfuncs['dataParseCSV']
+    if problems:
+        chk.bad(rule, lf.mod, lf.pyname, problems[0][1][:110], f'evaluation of dataParseCSV on typed tables written as CSV ({n} cells): {problems[0][1]} ({len(problems)} deviations)', node=lf.func)
+        return False
+    chk.ok(rule, f'{n} cells of typed tables (numbers incl. 1e21 and fractions, booleans, datetimes with milliseconds and date-only, strings with quoted commas / quotes, date-like invalid '
+           f'text such as 2024-02-30 and 2024-13-01, nulls) written as CSV and read back with dataParseCSV: the same typed values', count=n)
+    return True
+
+
 def check_csv_inference(chk):
     mod = chk.repo.module('data')
     func = mod.func('validate_data', 'C19.V')
@@ -180,8 +196,9 @@ def run(chk):
     chk.guard('C19.F', check_filter_and_field, chk)
     chk.guard('C19.A', check_aggregate, chk)
     chk.guard('C19.S', check_sort_top, chk)
+    typing_ok = chk.guard('C19.V', check_csv_typing_sim, chk)
     chk.guard('C19.V', check_csv_dialect, chk)
-    chk.guard('C19.V', check_csv_inference, chk)
+    chk.readback(typing_ok)('C19.V', check_csv_inference, chk)
     # shared clauses
     from . import c12, c16, c09, c05
     chk.rule('C05.K', 'shared with C05: dataParseCSV rows are objects keyed by exactly the header fields (ragged rows; evaluation on concrete texts)')
